@@ -846,17 +846,115 @@ def features(d):
     return sorted(fs)
 
 
+def _remap_blk(b, lo, size):
+    if isinstance(b, str) or b is None:
+        return b
+    if lo <= b < lo + size:
+        raise KeyError(b)
+    return b - size if b >= lo + size else b
+
+
+def _remap_op(op, lo, size):
+    """renumber the creation indices of a call after the elements lo .. lo+size-1 were dropped (KeyError: it used one)"""
+    n = op[0]
+    out = [n, _remap_blk(op[1], lo, size)]
+    for a in op[2:]:
+        if isinstance(a, list) and n in ('appendBlocks', 'removeBlocks', 'removeChildren'):
+            out.append([_remap_blk(x, lo, size) for x in a])
+        elif isinstance(a, int) and not isinstance(a, bool) and n != 'setAttribute':
+            out.append(_remap_blk(a, lo, size))
+        else:
+            out.append(a)
+    return out
+
+
+def _drop_subtree(f, k, counter):
+    """remove the element with pre-order index k from the parsed node f (counter: [next index]); returns (f', size) or None"""
+    me = counter[0]
+    counter[0] += 1
+    kids = []
+    found = None
+    for x in f[3:]:
+        if isinstance(x, str) or found is not None:
+            if not isinstance(x, str):
+                counter[0] += fn_count(x)
+            kids.append(x)
+            continue
+        if counter[0] == k:
+            found = fn_count(x)
+            counter[0] += found
+            continue
+        if counter[0] < k < counter[0] + fn_count(x):
+            r = _drop_subtree(x, k, counter)
+            if r is not None:
+                kids.append(r[0])
+                found = r[1]
+                continue
+        counter[0] += fn_count(x)
+        kids.append(x)
+    if found is None:
+        return None
+    # merge text blocks that became adjacent (the parser would build one block)
+    merged = []
+    for x in kids:
+        if isinstance(x, str) and merged and isinstance(merged[-1], str):
+            merged[-1] = merged[-1] + x
+        else:
+            merged.append(x)
+    return (f[:3] + merged, found)
+
+
+def drop_element(d, k):
+    """the case without the subtree of element k (k > 0; seed root kept), calls renumbered; None if impossible"""
+    base = 0
+    trees = [d['seed']] + list(d['spares'])
+    for ti, t in enumerate(trees):
+        n = fn_count(t)
+        if base <= k < base + n:
+            if k == base:
+                if ti == 0:
+                    return None
+                size = n
+                new_trees = trees[:ti] + trees[ti + 1:]
+            else:
+                r = _drop_subtree(t, k, [base])
+                if r is None:
+                    return None
+                size = r[1]
+                new_trees = trees[:ti] + [r[0]] + trees[ti + 1:]
+            ops = []
+            for op in d['ops']:
+                try:
+                    ops.append(_remap_op(op, k, size))
+                except KeyError:
+                    continue
+            return dict(d, seed=new_trees[0], spares=new_trees[1:], ops=ops)
+        base += n
+    return None
+
+
 def shrink(d):
     ops = d['ops']
     for i in range(len(ops) - 1, -1, -1):
         yield dict(d, ops=ops[:i] + ops[i + 1:])
     for i in range(len(ops)):
         yield dict(d, ops=ops[:i + 1])
-    if d['spares']:
-        for i in range(len(d['spares']) - 1, -1, -1):
-            # dropping a spare shifts the creation indices above it: only the last one can go without renumbering
-            if i == len(d['spares']) - 1:
-                yield dict(d, spares=d['spares'][:i])
+    total = fn_count(d['seed']) + sum(fn_count(s) for s in d['spares'])
+    cands = []
+    for k in range(total - 1, 0, -1):
+        c = drop_element(d, k)
+        if c is not None:
+            cands.append((fn_count(c['seed']) + sum(fn_count(s) for s in c['spares']), len(cands), c))
+    for _, _, c in sorted(cands, key=lambda x: x[:2]):      # biggest subtree first
+        yield c
+
+    def strip_attrs(f):
+        if isinstance(f, str):
+            return f
+        return [f[0], [], f[2]] + [strip_attrs(x) for x in f[3:]]
+    c = dict(d, seed=strip_attrs(d['seed']), spares=[strip_attrs(x) for x in d['spares']])
+    if c != d:
+        yield c
     if d['kind'] == 'idoc':
         yield dict(d, kind='doc')
     if d['kind'] == 'doc':
